@@ -156,6 +156,12 @@ fn c15_sync(rec: &mut Rec, tier: u8, seed: u64, idx: usize) {
         (false, 0) => sp(vec![vec![AStore(0, 1), AStore(1, 1), NNotify, AStore(0, 2), ALoad(1), Join(1)], vec![ALoad(0), NWait, ALoad(1), AStore(1, 2), ALoad(0)]]),
         (false, 1) => sp(vec![vec![AStore(0, 1), NNotify, AStore(1, 1), AStore(0, 2), Join(1), Join(2)], vec![ALoad(0), NWait, ALoad(1), ALoad(0)], vec![ALoad(1), AStore(0, 3), ALoad(0)]]),
         (false, 2) => sp(vec![vec![RStore(0, 1), NNotify, RStore(0, 2), RLoad(1), Join(1)], vec![RLoad(0), NWait, RLoad(0), RStore(1, 1), RLoad(0)]]),
+        // two threads race, and the later one is blocked when the earlier one acts; what unblocks it comes from a third
+        // thread: the other order of the race needs the third thread scheduled first, which no dependence of the blocked
+        // thread's own operations asks for (round 13)
+        (false, 3) if idx % 16 == 7 => SProg { threads: vec![vec![Join(1), Join(2), Join(3), Recv, Recv], vec![Send(1)], vec![Park, Send(2)], vec![Unpark(2)]], loom_arc: false, forget_rx: false, rx_owner: 0 },
+        (false, 3) if idx % 16 == 11 => sp(vec![vec![Join(1), Join(2), Join(3)], vec![AStore(0, 1), ALoad(1)], vec![Park, AStore(1, 1), ALoad(0)], vec![Unpark(2)]]),
+        (false, 3) => SProg { threads: vec![vec![Join(1), Join(2), Join(3)], vec![AStore(0, 1), ALoad(1)], vec![Recv, AStore(1, 1), ALoad(0)], vec![Send(5)]], loom_arc: false, forget_rx: false, rx_owner: 2 },
         (false, _) => crate::fam_sync::prog_at(if idx % 8 == 3 { "C07" } else { "C01" }, 0, seed ^ 0x15, 50_000_000 + idx),
     };
     rec.hash = p.hash();
